@@ -69,6 +69,18 @@ def _rng(r):
     return None if r is None else [r.version, r.first, r.last]
 
 
+def _views_agree(s):
+    """the public sorted views, read after EVERY mutating step (so that a view memoised by an earlier read and not dropped by the
+    mutator shows): iter_cidrs() and iter_ipranges() must present exactly the stored blocks"""
+    stored = sorted(_dump(s))
+    shown = [[n.version, n._value, n._prefixlen] for n in s.iter_cidrs()]
+    assert shown == stored, "iter_cidrs() %r does not show the stored blocks %r" % (shown[:4], stored[:4])
+    if len(stored) <= 64:
+        rs = norm([[v] + list(first_last(v, a, p)) for v, a, p in stored])
+        got = [_rng(r) for r in s.iter_ipranges()]
+        assert got == rs, "iter_ipranges() %r does not show the stored blocks (ranges %r)" % (got[:4], rs[:4])
+
+
 def impl_sets_run(ops):
     import netaddr
     import pickle
@@ -106,12 +118,16 @@ def impl_sets_run(ops):
                         regs[r] = res
                 except Exception as e:  # noqa
                     err = exn_of(e)
+                _views_agree(regs[r])
                 out.append([err, _dump(regs[r])])
             elif name == "pop":
                 r = op[1]
                 try:
                     k = regs[r].pop()
+                    _views_agree(regs[r])
                     out.append([None, _dump(regs[r]), [k.version, k._value, k._prefixlen]])
+                except AssertionError:
+                    raise
                 except Exception as e:  # noqa
                     out.append([exn_of(e), _dump(regs[r]), None])
             elif name == "contains":
@@ -477,4 +493,49 @@ def rand_history(rng, n, weights):
             ops.append(["contains", r, e])
         elif name == "cmp":
             ops.append(["cmp", r, rng.randrange(NREG)])
+    return ops
+
+
+def big_history(rng):
+    """A history on sets with hundreds of blocks: register 0 starts with 262 or 300 lone hosts of one /20 (stride 2 or 3: nothing
+    merges) plus a few small blocks, register 1 with a shifted copy; then small aligned blocks (/27../31, also as ranges) that hold
+    some of those hosts are added and removed, with views, comparisons and operators in between -- a lookup structure, threshold or
+    batch size that only matters for sets of this size needs such a history."""
+    ver = rng.choice((4, 4, 6))
+    w = gens.W[ver]
+    base = rng.choice([0, (1 << w) - (1 << 12), rng.getrandbits(w - 12) << 12])
+    n = rng.choice([262, 300])      # (the model's view costs n^2 key computations: 4 s at 300)
+    stride = rng.choice([2, 3])
+    off = rng.randrange(stride)
+
+    def hosts(shift):
+        xs = [base + ((off + shift + stride * i) % (1 << 12)) for i in range(n)]
+        return [["a", ver, x] if rng.random() < 0.7 else ["n", ver, x, w] for x in sorted(set(xs))]
+    ops = [["init", 0, ["iter", hosts(0)]], ["view", 0], ["init", 1, ["iter", hosts(1)[: n // 2]]]]
+
+    def small_block():
+        p = rng.randint(w - 5, w - 1)
+        v = base + rng.randrange(1 << 12)
+        f = v >> (w - p) << (w - p)
+        k = rng.random()
+        if k < 0.6:
+            return [rng.choice(["n", "s"]), ver, rng.choice((f, v)), p]
+        return ["r", ver, f, f + (1 << (w - p)) - 1]
+    for _ in range(rng.randint(8, 18)):
+        k = rng.random()
+        r = rng.choice((0, 0, 1))
+        if k < 0.35:
+            ops.append(["add", r, small_block()])
+        elif k < 0.6:
+            ops.append(["remove", r, small_block()])
+        elif k < 0.66:
+            ops.append(["view", r])
+        elif k < 0.8:
+            ops.append([rng.choice(["inter", "diff", "xor", "union"]), 2, 0, 1])
+        elif k < 0.9:
+            ops.append(["cmp", rng.choice((0, 1, 2)), rng.choice((0, 1, 2))])
+        else:
+            e = small_block()
+            if e[0] in ("n", "s"):
+                ops.append(["contains", r, ["n"] + e[1:]])
     return ops
